@@ -242,30 +242,50 @@ PLAN = {
     ),
     "C07": dict(
         level="other",
-        functions=SEARCH + GREEDY + [IFC + "remaining_amp_periods"] + PREPROC,
+        functions=SEARCH + GREEDY + [IFC + "remaining_amp_periods"] + PREPROC + [SA + "schedule", "acnportal.algorithms.postprocessing.format_array_schedule",
+                                                                                   "acnportal.algorithms.base_algorithm.BaseAlgorithm.interface"] + INFRA,
+        lemmas=["C07.remaining_amp_periods_are_non_negative_for_unmet_demand"],
         bounded=[dict(module="rt.algomon", fn="algo_monitor", label="every schedule() call of greedy / round-robin during seeded simulations"),
                  dict(module="rt.drivers", fn="sim_monitor", label="simulation-level corollaries under the sorted algorithms", schedulers=["sorted", "rr"])],
-        text="PROVED (all vectors, level lists, brackets; relative to the algorithm-side feasibility predicate FEAS): the two search procedures every "
-             "greedy grant goes through return a feasible value - discrete_max_feasible_rate (loop invariant + termination measure): the returned "
-             "level is feasible unless no level is, in which case 0 is returned; max_feasible_rate / its recursive bisection: the result is feasible "
-             "and inside [lb, ub]; ValueError exactly when the incoming schedule is infeasible, nothing modified. BOUNDED: the composition - "
-             "preprocessing, the allocation loops, round robin, post-processing - is checked at every call of the real schedule() on directly "
-             "constructed binding states and in seeded simulations (feasible for the network, accepted by the EVSE, <= remaining amp-periods, <= "
-             "max(estimator bound, minimum pilot), 0 without an active session, one value per station; no warning, no invalid rate, no over-delivery).",
-        note="FEAS is the value of utils.infrastructure_constraints_feasible (assumed contract: a function of the vector and the infrastructure object); "
-             "that it equals the phasor definition is C06 (monitored); termination of the bisection is not proved (needs the Archimedean property)",
-        explanation="proved: feasibility / bracket postconditions of the search procedures; bounded: whole schedule() calls and simulations (rt.algomon, rt.simcheck)",
-        technique="contract-based deductive verification of the search procedures (loop invariant, recursive contract, pyvc/z3) + run-time contract monitor (bounded) for the composition",
+        text="PROVED (all infrastructures, session lists, vectors, level lists, brackets; relative to the algorithm-side feasibility predicate FEAS, which C06 proves equal "
+             "to the phasor definition): (1) the two search procedures every greedy grant goes through - discrete_max_feasible_rate (loop invariant + "
+             "termination measure): the returned level is feasible unless no level is, then 0; max_feasible_rate / its recursive bisection: the result is "
+             "feasible and inside [lb, ub]; ValueError exactly when the incoming schedule is infeasible. (2) the greedy allocation "
+             "SortedSchedulingAlgo.sorting_algorithm (two loops, invariants + step contract), stated over the sessions as handed in, whatever order the sort "
+             "function puts them in: the result is FEAS; every session's entry lies between its lower bound and min(first upper rate bound, remaining "
+             "demand in amp-periods); a finite-rate station holds 0 or one of its allowable levels; every station without a session holds 0. (3) "
+             "preprocessing: remove_finished_sessions (ghost index maps), enforce_pilot_limit, reconcile_max_and_min, apply_upper_bound_estimate (bound looked "
+             "up by SESSION id), expand_max_min_rates, remaining_amp_periods. (4) THE COMPOSITION SortedSchedulingAlgo.schedule for the plain greedy "
+             "configuration (no estimator, no uninterrupted charging): interface.infrastructure_info -> run_preprocessing -> sorting_algorithm -> "
+             "format_array_schedule, every callee precondition discharged at its call site; postcondition: exactly one pilot for every registered station; "
+             "the pilots form a vector the algorithm-side check accepts for a description whose limits / phases / station order equal the network's; no "
+             "session gets a negative pilot, more than its remaining demand (amp-periods), more than its rate bound or its station's maximum pilot; a "
+             "finite-rate station gets 0 or one of its advertised levels; stations without an active session get 0. format_array_schedule: one one-element "
+             "list per registered station, InvalidScheduleError exactly on a length mismatch. BOUNDED: the configurations with an estimator / uninterrupted "
+             "charging as a whole (their preprocessing steps are proved individually), round robin, and the simulation-level corollaries (no warning, no "
+             "invalid rate, no over-delivery) - checked at every call of the real schedule() on constructed binding states and in seeded simulations.",
+        note="FEAS is the value of utils.infrastructure_constraints_feasible under default arguments (that it equals the phasor definition is C06, proved); "
+             "termination of the bisection is not proved (Archimedean property); schedule() requires what Interface.active_sessions delivers (one live "
+             "SessionInfo per station, first minimum rate <= 0 <= first maximum rate) and what the EVSE classes advertise through the network's cache "
+             "(non-negative max / min pilots, positive voltages and period, strictly increasing level lists containing 0 - C13; the cache-filling "
+             "_update_info_store itself is not under contract); the sort function and a custom estimator are assumed contracts (user code)",
+        explanation="proved: search procedures, greedy allocation (feasible, bounds, levels, zeros), preprocessing steps, and the whole plain-greedy schedule() composition; "
+                    "bounded: estimator / uninterrupted configurations as a whole, round robin, simulations (rt.algomon, rt.simcheck)",
+        technique="contract-based deductive verification of the search procedures, the allocation loops, the preprocessing steps and the schedule() composition (loop invariants, step contracts, recursive contract, pyvc/z3) + run-time contract monitor (bounded) for the remaining configurations",
     ),
     "C08": dict(
         level="other",
-        functions=SEARCH + GREEDY + SORTFNS + [IFC + "remaining_amp_periods", IFC + "max_pilot_signal"],
+        functions=SEARCH + GREEDY + SORTFNS + [IFC + "remaining_amp_periods", IFC + "max_pilot_signal",
+                                                "acnportal.algorithms.uncontrolled_charging.UncontrolledCharging.schedule"],
         lemmas=["C08.feasible_set_along_one_coordinate_is_an_interval"],
         bounded=[dict(module="rt.algomon", fn="algo_monitor", label="priority allocation of greedy / round-robin / uncontrolled against the specification")],
         text="PROVED (relative to FEAS): discrete_max_feasible_rate returns the LARGEST allowable level that is feasible given the fixed other entries "
              "(every higher level is infeasible; 0 if none is feasible) - loop invariant 'all levels above the current index are infeasible'; "
              "max_feasible_rate returns ub when ub is feasible, otherwise a feasible value in [lb, ub] with an infeasible point at most eps above it "
-             "(contract of the recursive bisection, used at its own recursive calls); lemma: along one coordinate each constraint is a convex "
+             "(contract of the recursive bisection, used at its own recursive calls); the greedy allocation loop (step contract): sessions are served in "
+             "queue order, each grant changes only that session's entry and is maximal given the grants already made (largest feasible level / within "
+             "eps for continuous); the five sort functions return a permutation ordered by their priority key; UncontrolledCharging.schedule (loop invariant): "
+             "every active session gets exactly its station's maximum pilot, no other station gets anything; lemma: along one coordinate each constraint is a convex "
              "quadratic, so an infeasible point above a feasible one makes everything above it infeasible - hence 'within eps of the largest "
              "feasible pilot'. BOUNDED: the priority order (five sort keys, amp-periods from each station's voltage), the sequential allocation loop "
              "with earlier grants fixed, round robin level by level and the uncontrolled baseline are compared with an executable specification "
